@@ -19,7 +19,11 @@ META = {
 SHARD_DEADLINE = {'quick': 400, 'thorough': 3400}
 CASE_TIMEOUT = {'quick': 25, 'thorough': 90}
 NAMES = ['x10', 'x2', 'x1', 'x21', 'y', 'y1', 'z3', 'w', 'A', 'b_', 'a12', 'a1', 'B2', 'q', 'x3', 'x11', 'zz', 'm', 'k9', 'k10']
-ALLOPS = ops.BINARY + ops.UNARY + ['norm']
+# two-step expressions whose intermediate result cancels identically in symbolic evaluation (it is then an EMPTY multivector, while
+# numeric evaluation carries explicit zeros): the second step must treat "no blades" like zero
+TWO_STEP = {'x:(a^a)-b': lambda a, b: (a ^ a) - b, 'x:(a-a)-b': lambda a, b: (a - a) - b, 'x:a.cp(a)+b': lambda a, b: a.cp(a) + b,
+            'x:b-(a-a)': lambda a, b: b - (a - a), 'x:(a^a)*b+b': lambda a, b: (a ^ a) * b + b, 'x:(a*b-a*b)-a': lambda a, b: (a * b - a * b) - a}
+ALLOPS = ops.BINARY + ops.UNARY + ['norm'] + list(TWO_STEP)
 
 
 def floors(tier):
@@ -76,7 +80,7 @@ def one_case(ctx, alg, cfg, name, op, force_keysets=None):
     rng = ctx.rng
     to = CASE_TIMEOUT[ctx.tier]
     canon = tuple(alg.canon2bin.values())
-    arity = 2 if op in ops.BINARY else 1
+    arity = 2 if (op in ops.BINARY or op in TWO_STEP) else 1
     composite = op in ops.COMPOSITE_BIN or op in ops.COMPOSITE_UN or op == 'norm'
     cap = 3 if composite else 4
     graded = bool(cfg.get('opts', {}).get('graded'))
@@ -180,6 +184,8 @@ def one_case(ctx, alg, cfg, name, op, force_keysets=None):
     def apply_op(*mvs):
         if op == 'norm':
             return mvs[0].norm()
+        if op in TWO_STEP:
+            return TWO_STEP[op](*mvs)
         return ops.call_op(alg, op, *mvs)
     stn, rn = ctx.guarded(to, apply_op, *xn)
     if stn != 'ok':
